@@ -99,11 +99,20 @@ Proof. exact is_parent_trees. Qed.
 Print Assumptions is_parent_moves_cursors_only.
 
 (* The unchanged-tree short-cut of backup_tree is taken exactly when the serialised id equals the
-   matched parent's subtree id. *)
+   matched parent's subtree id and (guard regenerated from the source) the index still has the tree. *)
 Theorem shortcut_iff_equal_id : forall parent id has,
-  backup_tree_action parent id has = Shortcut <-> parent = Matched id.
+  backup_tree_action parent id has = Shortcut <->
+  parent = Matched id /\ (shortcut_requires_has_tree = true -> has = true).
 Proof. exact shortcut_lemma. Qed.
 Print Assumptions shortcut_iff_equal_id.
+
+(* Every directory tree the new snapshot refers to is handed to the packer or is in the index —
+   also when the matched parent's subtree was pruned from the repository.  (Unprovable for the
+   source as found: there the short-cut did not test the index; see NOTES.md, finding.) *)
+Theorem every_tree_saved_or_indexed : forall parent id has,
+  backup_tree_action parent id has <> Save -> has = true.
+Proof. exact saved_or_indexed_lemma. Qed.
+Print Assumptions every_tree_saved_or_indexed.
 
 (* skip_if_unchanged influences only whether the snapshot file is written, never the tree. *)
 Theorem skip_if_unchanged_does_not_change_the_tree : forall D chunks tid o st ix parents force skip skip' (cs : list (src D)),
